@@ -9,7 +9,7 @@ if ! git apply "$PATCH"; then echo "patch does not apply"; exit 2; fi
 cd /verif
 for c in "$@"; do
   echo "== $c"
-  ./check $c quick 2>&1 | tail -4
+  ./check $c quick 2>&1 | grep -E 'violation|evaluations=|INCONCLUSIVE|error' | cut -c1-500 | head -6
 done
 git -C /repo checkout -- . && git -C /repo status --short
 rm -rf /verif/replays/out
